@@ -35,7 +35,7 @@ func init() {
 		},
 		Meta: func(tier string) core.Meta {
 			return core.Meta{ID: "C12", Level: "model_checking",
-				Rule: "(a) exhaustive interleaving exploration: device.SetLock is instrumented (build overlay: a scheduling point in front of every statement of SetLock that calls a function of os / syscall or Stat / Close of the file handle, also inside its retry loop); the actors run under a cooperative scheduler on a real file system with real flock; stateless depth-first search: an execution is replayed along a prefix of choices and completed without preemption, every later position branches to every other enabled actor; actors: 2 and 3 contenders with the spellings 'router', 'code/router', '/abs/policies/p1/code/ipv6/router' (and a second device as control) - all interleavings; plus the lock-file clean-up of bin/delete-old-policies as a further actor (its steps open / flock / unlink / close or a plain unlink are chosen from the text of the script): all interleavings with 2 contenders, all interleavings with at most 5 preemptions with 3 contenders (thorough); invariant: exactly one holder per device (at most one while the job may hold the lock itself), every loser gets 'Approve in progress for <its spelling>', nobody blocks, replay never diverges, after release a later contender succeeds; states = interleavings, transitions = scheduled steps; (b) process level: real drc/do-approve binaries as holder paused by the stdio simulator at every phase of its session, contenders of every front end and spelling run to completion against it: exit 1 with 'Approve in progress', status/history/log tree byte-identical, no second session at the simulator; then the holder is released or killed -9 and a fresh run must get the lock",
+				Rule: "(a) exhaustive interleaving exploration: device.SetLock is instrumented (build overlay: a scheduling point in front of every statement of SetLock that calls a function of os / syscall or Stat / Close of the file handle, also inside its retry loop); the actors run under a cooperative scheduler on a real file system with real flock; stateless depth-first search: an execution is replayed along a prefix of choices and completed without preemption, every later position branches to every other enabled actor; actors: 2 and 3 contenders with the spellings 'router', 'code/router', '/abs/policies/p1/code/ipv6/router' (and a second device as control) - all interleavings; plus the lock-file clean-up of bin/delete-old-policies as a further actor (its steps open / flock / unlink / close or a plain unlink are chosen from the text of the script): all interleavings with 2 contenders, all interleavings with at most 5 preemptions with 3 contenders (thorough); invariant: exactly one holder per device (at most one while the job may hold the lock itself), every loser gets 'Approve in progress for <its spelling>', nobody blocks, replay never diverges, after release a later contender succeeds; states = interleavings, transitions = scheduled steps; (b) process level: real drc/do-approve binaries as holder paused by the stdio simulator at every phase of its session, and a do-approve compare holder whose device session is over but which is blocked printing its result lines to a full pipe (history and status still to be written), contenders of every front end and spelling run to completion against it: exit 1 with 'Approve in progress', status/history/log tree byte-identical, no second session at the simulator; then the holder is released or killed -9 and a fresh run must get the lock",
 				Assumptions: []string{"Linux flock semantics on a local file system (NFS etc. outside)"},
 				Bounds:      map[string]any{"contenders": "2 and 3; with the housekeeping job: 2 (all interleavings), 3 (preemption bound 5, thorough)", "phases": "every line of the holder's dialogue (thorough), 6 phases (quick)"},
 			}
